@@ -1,6 +1,7 @@
 package engines
 
 import (
+	"container/heap"
 	"fmt"
 	"math"
 	"sort"
@@ -63,6 +64,8 @@ type rCB struct {
 }
 
 type rStream struct {
+	kept  [][]*auparse.AuditMessage // the slices as they were handed over (a Stream may keep them)
+	keptG []*rGroup
 	cur   *[]rCB
 	msgs  []*auparse.AuditMessage // by op index (PushMessage only)
 	byPtr map[*auparse.AuditMessage]int
@@ -105,10 +108,28 @@ func (s *rStream) ReassemblyComplete(msgs []*auparse.AuditMessage) {
 		}
 	}
 	*s.cur = append(*s.cur, rCB{group: g})
+	if len(s.kept) < 200000 {
+		s.kept = append(s.kept, msgs)
+		s.keptG = append(s.keptG, g)
+	}
 }
 
 func (s *rStream) EventsLost(count int) {
 	*s.cur = append(*s.cur, rCB{isLost: true, lost: count})
+}
+
+// instHeap orders model instances by offset (container/heap).
+type instHeap []*rInst
+
+func (h instHeap) Len() int           { return len(h) }
+func (h instHeap) Less(i, j int) bool { return h[i].off < h[j].off }
+func (h instHeap) Swap(i, j int)      { h[i], h[j] = h[j], h[i] }
+func (h *instHeap) Push(x any)        { *h = append(*h, x.(*rInst)) }
+func (h *instHeap) Pop() any {
+	o := *h
+	x := o[len(o)-1]
+	*h = o[:len(o)-1]
+	return x
 }
 
 // model instance of a buffered event
@@ -236,14 +257,17 @@ func ExecRPlan(p *RPlan, trace bool) *core.Result {
 	if len(p.Scatter) != 0 {
 		res.Probes[prScatter]++
 	}
+	// the oldest buffered instance: a min-heap by offset with lazy deletion
+	// (an entry counts while the model still holds that very instance)
+	var hq instHeap
 	head := func() *rInst {
-		var hd *rInst
-		for _, in := range buffered {
-			if hd == nil || in.off < hd.off {
-				hd = in
+		for len(hq) > 0 {
+			if in := hq[0]; buffered[in.seq] == in {
+				return in
 			}
+			heap.Pop(&hq)
 		}
-		return hd
+		return nil
 	}
 
 	// message objects parsed ahead of time (before the first call)
@@ -372,6 +396,7 @@ func ExecRPlan(p *RPlan, trace bool) *core.Result {
 				if in == nil {
 					in = &rInst{seq: seq, off: op.Off, firstPush: i, created: now}
 					buffered[seq] = in
+					heap.Push(&hq, in)
 					if int64(op.Off) < maxDeliveredOff {
 						res.Probes[prLateAfterEviction]++
 					}
@@ -386,7 +411,7 @@ func ExecRPlan(p *RPlan, trace bool) *core.Result {
 				pushedOK[i] = !closed // delivery by the end is only promised for what was pushed before Close
 			}
 		}
-		if len(buffered) > 1 {
+		if len(buffered) > 1 && len(buffered) <= 64 {
 			lo, hi := uint32(math.MaxUint32), uint32(0)
 			for s := range buffered {
 				if s < lo {
@@ -635,8 +660,12 @@ func ExecRPlan(p *RPlan, trace bool) *core.Result {
 			closed = true
 			closeSeen = true
 			buffered = map[uint32]*rInst{}
+			hq = hq[:0]
 		}
 		// abstract state: (buffered, complete count, head expired, closed)
+		if len(res.Abstract) >= 4000 {
+			continue
+		}
 		nc := 0
 		for _, in := range buffered {
 			if in.complete {
@@ -656,6 +685,31 @@ func ExecRPlan(p *RPlan, trace bool) *core.Result {
 		}
 	}
 	// end of history
+	// a Stream may keep the slices it was given: they are its own from then on
+	for gi, kept := range st.kept {
+		g := st.keptG[gi]
+		same := len(kept) == len(g.ids)
+		for k := 0; same && k < len(kept); k++ {
+			id := -1
+			if m := kept[k]; m != nil {
+				if x, ok := st.byPtr[m]; ok {
+					id = x
+				} else {
+					id = parseID(m.RawData)
+				}
+				if m.Sequence != g.seqs[k] {
+					same = false
+				}
+			}
+			if id != g.ids[k] {
+				same = false
+			}
+		}
+		if !same {
+			viol("C01", "delivered-group-changed-later", "delivery", "the group handed over in callback %d (ids %v, sequences %v) holds other messages at the end of the history", gi, g.ids, g.seqs)
+			break
+		}
+	}
 	if closeSeen {
 		for id, ok := range pushedOK {
 			if ok && deliveredCnt[id] != 1 {
